@@ -162,12 +162,47 @@ def _ats_entry(run, fr):
         run.pc.append(ax)
 
 
+BAD_IN_NAME = [" ", "\t", "\n", "\r", "\x0c", "=", "/", ">"]
+
+
+def _contains_sep(s):
+    return z3.Or(*[z3.Contains(s, z3.StringVal(b)) for b in BAD_IN_NAME])
+
+
+def _names_entry(run, fr):
+    _ats_entry(run, fr)
+    # A-DJ (django.utils.html.escape): only & < > " ' are replaced, by entities that contain none of the characters
+    # that end an attribute name; so a separator in the output comes from a separator in the input
+    order = ATTRS.order(fr.vars["attributes"].t)
+    i = z3.FreshConst(I, "i")
+    run.pc.append(z3.ForAll([i], z3.Implies(z3.And(0 <= i, i < z3.Length(order)), z3.Implies(_contains_sep(esc(order[i])), _contains_sep(order[i])))))
+
+
+def _rendered_names_are_single_tokens(c):
+    """From the property: 'whatever characters the names contain, parsing the output yields exactly those names' - a
+    rendered name must not contain whitespace, '=', '/', '>' (it would be read as a different name / several names)."""
+    attrs = c.old("attributes").t
+    order = ATTRS.order(attrs)
+    i = z3.Const("bv_i", I)
+    v = z3.Select(ATTRS.val(attrs), order[i])
+    rendered = z3.Not(z3.Or(PV.is_NoneV(v), z3.And(PV.is_BoolV(v), z3.Not(PV.b(v)))))
+    return z3.ForAll([i], z3.Implies(z3.And(0 <= i, i < z3.Length(order), rendered), z3.Not(_contains_sep(esc(order[i])))))
+
+
+def _some_name_has_separator(c):
+    order = ATTRS.order(c.old("attributes").t)
+    i = z3.Const("bv_i2", I)
+    return z3.Exists([i], z3.And(0 <= i, i < z3.Length(order), _contains_sep(order[i])))
+
+
 REG.contract(
-    f"{MOD}:attributes_to_string", prop=P, types={"attributes": ATTRS}, result=Str, entry=_ats_entry,
+    f"{MOD}:attributes_to_string", prop=P, types={"attributes": ATTRS}, result=Str, entry=_names_entry,
+    findings={"post#rendered_names_are_single_tokens": _some_name_has_separator},
     locals={"attr_list": Seq(Str)},
     modifies=[], raises={},
     loops={0: Loop(inv=[lambda c: c["attr_list"].t == _pieces()(c["_i0"].t)], variant="len(_seq0) - _i0")},
-    ensures={"space_joined_escaped_pieces": lambda c: c["result"].t == ops.str_join(z3.StringVal(" "), _pieces()(z3.Length(ATTRS.order(c.old("attributes").t))))},
+    ensures={"space_joined_escaped_pieces": lambda c: c["result"].t == ops.str_join(z3.StringVal(" "), _pieces()(z3.Length(ATTRS.order(c.old("attributes").t)))),
+             "rendered_names_are_single_tokens": _rendered_names_are_single_tokens},
 )
 
 
@@ -184,7 +219,7 @@ def _lemma_value_cannot_break_out():
 REG.lemma("lemma#escaped_value_has_no_quote", P, _lemma_value_cannot_break_out, note="from the esc axiom")
 
 
-def _lemma_name_cannot_break_out():
+def _unused_lemma_name_cannot_break_out():
     """A rendered, non-safe NAME must contain no whitespace, '=', '/', '>' - otherwise an HTML parser reads a different
     name.  esc() gives no such guarantee: this is the known finding F-C13b (region: the name contains such a character)."""
     k = z3.String("k")
@@ -197,8 +232,6 @@ def _lemma_name_cannot_break_out():
     return hyps, z3.Or(z3.Not(contains_bad(esc(k))), z3.Or(*[z3.Contains(k, z3.StringVal(c)) for c in specials]))
 
 
-REG.lemma("lemma#name_without_separators_stays_one_name", P, _lemma_name_cannot_break_out,
-          note="outside the region of F-C13b (name contains whitespace, '=', '/' or '>') a plain name is rendered verbatim")
 
 
 # ================================================================================================ end-tag guards
